@@ -55,7 +55,7 @@ def build() -> Check:
         "Kind purity and identifier threading of every update, context START before its body, execution record last and unique, "
         "and who-may-build OperationUpdate are decided from the same table and the AST.",
         ["validity of the concatenation across invocations depends on which cell the next invocation starts in (not decided)",
-         "a SUCCEEDED context replayed in replay-children mode has a deterministic body (does not raise on replay)"],
+         ],
         "one obligation per (rule, executor, cell)",
     )
     term = terminal_statuses(prog)
@@ -67,8 +67,8 @@ def build() -> Check:
         for t in traces:
             cks = t.kinds("CKPT")
             n_updates += len(cks)
-            if ot == "CONTEXT" and st == "SUCCEEDED" and any(e.data.get("outcome", "").startswith("builtins.Exception") for e in user_events(t, "user")):
-                continue  # non-deterministic body (assumption)
+            # (a summarised context whose re-traversed body raises - e.g. because an SDK operation inside it raises another class on replay than it did
+            #  live - is judged like every other path: the context is terminal, so nothing may be sent for it)
             why = accept(st, [e.data.get("action") for e in cks], term)
             if why:
                 bad.append((why, t))
